@@ -431,6 +431,11 @@ func c03Concurrent(c C03Case, sb *ServiceBinding, mb MethodBinding, cm reflect.V
 		k, _ := canonTuple(func(i int) (*Node, error) { return tuple[i], nil })
 		want[k]++
 	}
+	for i, o := range outs {
+		if e := o[len(o)-1]; !e.IsNil() {
+			return ev.Failf("call-failed:concurrent", "%s: concurrent call %d of %d failed: %T %v%s", what, i, len(outs), e.Interface(), e.Interface(), ctxText())
+		}
+	}
 	if rec.count() != len(tuples) {
 		return ev.Failf("handler-count", "%s: %d concurrent calls, handler invoked %d times%s", what, len(tuples), rec.count(), ctxText())
 	}
